@@ -354,7 +354,8 @@ class Prop:
                     res.violations.append({'clause': 'not-finished', 'features': dict(feats, state=str(proc.state)),
                                            'detail': {'outline': shape(named), 'calls': env.calls,
                                                       'exception': repr(proc.exception())}})
-                elif (proc.result() != want or type(proc.result()) is not type(want)) and not also_acceptable(env.calls, proc.result()):  # noqa: E721
+                elif (proc.result() != want or (type(proc.result()) is not type(want) and not isinstance(want, dict))) \
+                        and not also_acceptable(env.calls, proc.result()):  # noqa: E721 (0 is not False; a context assignment is any mapping)
                     res.violations.append({'clause': 'result', 'features': feats,
                                            'detail': {'outline': shape(named), 'calls': env.calls,
                                                       'got': repr(proc.result()), 'want': repr(want)}})
